@@ -2,6 +2,8 @@ package chain
 
 import (
 	"fmt"
+	"github.com/oasisprotocol/oasis-core/go/common/cbor"
+	"github.com/oasisprotocol/oasis-core/go/roothash/api/message"
 	"strings"
 
 	"github.com/cometbft/cometbft/abci/types"
@@ -26,7 +28,9 @@ type roundDriver struct {
 	flavour string
 	liar    signature.PublicKey
 	hasLiar bool
-	sent    map[signature.PublicKey]bool
+	// msgs: the messages the runtime emits in this round (part of the proposal every honest member votes for)
+	msgs []message.Message
+	sent map[signature.PublicKey]bool
 	// alignedDue: height at which a deliberately aligned round timeout (flavour "timeout-at-transition") falls due.
 	alignedDue int64
 	// epochStats: label describing the liveness statistics last seen in epoch epochStatsFor.
@@ -96,6 +100,27 @@ func (s *Sim) roundTxs(t *rapid.T, view *View, g *TxGen) []*TxDesc {
 		}
 		rd.liar, rd.hasLiar = signature.PublicKey{}, false
 		rd.Outcomes["round:"+rd.flavour]++
+		rd.msgs = nil
+		if s.W.Spec.RtAccountBalance > 0 && rapid.IntRange(0, 2).Draw(t, "roundEmitsMessages") > 0 {
+			// what the runtime emits: transfers out of its account, escrow added to and reclaimed from an entity's pool
+			// (refused unless the staking parameters allow escrow messages), in amounts around what the account holds
+			actors := s.W.Actors()
+			for n := rapid.IntRange(1, 3).Draw(t, "roundMsgs"); n > 0; n-- {
+				to := actors[rapid.IntRange(0, len(actors)-1).Draw(t, "roundMsgTo")].Addr
+				amt := q(uint64(rapid.SampledFrom([]int{0, 1, 7, 100, int(s.W.Spec.RtAccountBalance), int(s.W.Spec.RtAccountBalance) + 1}).Draw(t, "roundMsgAmount")))
+				sm := &message.StakingMessage{Versioned: cbor.NewVersioned(0)}
+				switch rapid.IntRange(0, 3).Draw(t, "roundMsgKind") {
+				case 0, 1:
+					sm.Transfer = &staking.Transfer{To: to, Amount: amt}
+				case 2:
+					sm.AddEscrow = &staking.Escrow{Account: s.W.Entities[rapid.IntRange(0, len(s.W.Entities)-1).Draw(t, "roundMsgPool")].Address(), Amount: amt}
+				default:
+					sm.ReclaimEscrow = &staking.ReclaimEscrow{Account: s.W.Entities[rapid.IntRange(0, len(s.W.Entities)-1).Draw(t, "roundMsgPool")].Address(), Shares: amt}
+				}
+				rd.msgs = append(rd.msgs, message.Message{Staking: sm})
+			}
+			rd.Outcomes[fmt.Sprintf("round-emits-messages:%d", len(rd.msgs))]++
+		}
 	}
 	sched, ok := rs.Committee.Scheduler(round, 0)
 	if !ok {
@@ -199,6 +224,8 @@ func (s *Sim) roundTxs(t *rapid.T, view *View, g *TxGen) []*TxDesc {
 		res := driverResult(v.tag)
 		if v.tag == 0 {
 			res = ExecutorResult{Failure: true}
+		} else if v.tag == 1 {
+			res.Messages = rd.msgs // (the proposal; a dissenter's result emits nothing)
 		}
 		ec, err := NewExecutorCommitment(s.W.Runtime.ID, nk, sched.PublicKey, rs.LastBlock, nil, res)
 		if err != nil {
@@ -208,7 +235,7 @@ func (s *Sim) roundTxs(t *rapid.T, view *View, g *TxGen) []*TxDesc {
 		nonce := g.V.Account(addr).General.Nonce + g.nonceAdd[addr]
 		g.nonceAdd[addr]++
 		body := &roothash.ExecutorCommit{ID: s.W.Runtime.ID, Commits: []commitment.ExecutorCommitment{*ec}}
-		gas := s.W.Spec.GasOp + s.W.Spec.GasTxByte*1024
+		gas := s.W.Spec.GasOp*uint64(1+len(res.Messages)) + s.W.Spec.GasTxByte*2048
 		out = append(out, &TxDesc{
 			Raw:    SignTx(nk.ID, nonce, &transaction.Fee{Gas: transaction.Gas(gas)}, roothash.MethodExecutorCommit, body),
 			Signer: nk.Name, Addr: addr, Method: roothash.MethodExecutorCommit, Nonce: nonce, Gas: gas, Note: "scripted round: " + rd.flavour, ExpectAuthOK: true,
